@@ -115,6 +115,16 @@ def scenario(exe, r, run, stats, witness):
                     ob.notifs.append((t, m["mid"], 2, val, m["payload"]))
                     # (a piggybacked reply carries the PEER's message id: it is not entered in
                     # ob.mids, the server's own ids used for notifications may equal it)
+                elif m["code"] >= 0x80:
+                    # an error response to a registration refresh (same token): the client is
+                    # told the observation is over
+                    old = by_tok.get((peer, tokh))
+                    if old is not None and old.dereg_at is None:
+                        old.dereg_at = t
+                        old.dereg_cause = "error-response-to-refresh-%d.%02d" % (
+                            m["code"] >> 5, m["code"] & 31)
+                        stats["refresh_answered_with_error"] = \
+                            stats.get("refresh_answered_with_error", 0) + 1
                 return
             ob = by_tok.get((peer, tokh))
             if m["type"] == 2 and m["mid"] in pending_dereg and m["code"] != 0:
@@ -234,6 +244,11 @@ def scenario(exe, r, run, stats, witness):
             opts.append((15, q))
         if observe is not None:
             opts.append((6, bytes([observe]) if observe else b""))
+        if res == "L" and observe == 0 and r.random() < 0.5:
+            # early negotiation (RFC 7959 2.4): the observer names the block size it wants,
+            # not always the same one
+            opts.append((23, bytes([r.choice([1, 2, 2, 3])])))
+            stats["registrations_with_block2"] = stats.get("registrations_with_block2", 0) + 1
         mid = (0x5000 + seq[0]) & 0xffff
         m = cw.msg(1, type=0, mid=mid, token=tok, options=opts)
         if observe == 0:
@@ -271,6 +286,15 @@ def scenario(exe, r, run, stats, witness):
             silent.add(i)
         elif x < 0.85:
             silent.discard(i)
+        elif x < 0.92 and x >= 0.87 and [o for o in live if o.res not in deleted]:
+            # the resource answers with an error for a while; an observer refreshes its
+            # registration (same token) in that time
+            o = r.choice([o for o in live if o.res not in deleted])
+            pi = [k for k in range(npeers) if peer_addr(k) == o.peer][0]
+            sim.cmd("resmod 0 %s code=%d" % (o.res.encode().hex(), r.choice([163, 160, 132, 129])))
+            send_req(pi, o.res, o.query, 0, bytes.fromhex(o.tok))
+            sim.run(until=sim.elapsed() + r.choice([10, 100, 2500]), quiesce=False)
+            sim.cmd("resmod 0 %s code=-1" % o.res.encode().hex())
         elif x < 0.87 and len(deleted) < 1:
             res = r.choice(["p"])
             sim.cmd("delres 0 %s" % res.encode().hex())
